@@ -50,6 +50,7 @@ def run(ctx: Ctx, rep: Report) -> None:
     C11.foreach(ctx, rep)
     conj(ctx, rep)
     edgenf.rule_nf(ctx, rep)
+    pred_specs(ctx, rep)
 
 
 def wf_rule(ctx: Ctx, rep: Report) -> None:
@@ -233,4 +234,114 @@ def conj(ctx: Ctx, rep: Report) -> None:
         'a non-respecting replacement of a respecting block is rejected',
         'a new block that does not respect the model can replace an old '
         'block that did', key='reject',
+    )
+
+
+def pred_specs(ctx: Ctx, rep: Report) -> None:
+    """The predicates that select the workflow branches mean what the
+    typestate assumes they mean (sa/rules/wftypestate.py:PREDICATES)."""
+    S = 'PRED'
+    P = 'bqskit/passes/control/predicates/'
+    for path, cls, skip, member in (
+        (P + 'multi.py', 'MultiPhysicalPredicate', 'gate.num_qudits < 2',
+         'gate not in model.gate_set'),
+        (P + 'single.py', 'SinglePhysicalPredicate', 'gate.num_qudits > 1',
+         'gate not in data.gate_set'),
+    ):
+        f = ctx.fn(f'{path}:{cls}.get_truth_value')
+        g = ctx.cfg(f)
+        rep.seen(f.qualname)
+        lp = [n for n in g.nodes if n.kind == 'for' and norm(
+            n.stmt.iter) == 'circuit.gate_set']
+        sk = [t for t in g.nodes if t.kind == 'test' and norm(
+            t.stmt.test) == skip]
+        mem = [t for t in g.nodes if t.kind == 'test' and norm(
+            t.stmt.test) == member]
+        rf = [n for n in g.nodes if isinstance(n.stmt, ast.Return) and norm(
+            n.stmt.value) == 'False']
+        rt = [n for n in g.nodes if isinstance(n.stmt, ast.Return) and norm(
+            n.stmt.value) == 'True']
+        cont = [n for n in g.nodes if isinstance(n.stmt, ast.Continue)]
+        ok = (
+            len(lp) == 1 and len(sk) == 1 and len(mem) == 1 and len(rf) == 1
+            and len(rt) == 1 and len(cont) == 1
+            and g.edge_dominates(sk[0].id, 'true', cont[0].id)
+            and g.edge_dominates(sk[0].id, 'false', mem[0].id)
+            and g.edge_dominates(mem[0].id, 'true', rf[0].id)
+            and rt[0].id not in g.in_loop_body(lp[0])
+        )
+        if cls == 'MultiPhysicalPredicate':
+            ok = ok and any(
+                isinstance(n.stmt, ast.Assign) and norm(
+                    n.stmt.targets[0]) == 'model' and norm(
+                    n.stmt.value) == 'data.model' for n in g.nodes)
+        rep.count()
+        which = 'multi' if 'Multi' in cls else 'single'
+        rep.check(
+            ok, S, cls, f.path, f.lineno,
+            f'true iff every {which}-qudit gate of the circuit is in the '
+            'model\'s gate set',
+            f'{cls} no longer answers "every {which}-qudit gate is native": '
+            f'expected `{skip}` -> continue, `{member}` -> return False, '
+            'True after the loop. The workflow selects its retargeting '
+            'branches with it', key='spec',
+        )
+    for path, cls, ret in (
+        (P + 'width.py', 'WidthPredicate',
+         'circuit.num_qudits < self.width'),
+        (P + 'notpredicate.py', 'NotPredicate',
+         'not self.predicate(circuit, data)'),
+    ):
+        f = ctx.fn(f'{path}:{cls}.get_truth_value')
+        rep.seen(f.qualname)
+        rets = [r for r in ast.walk(f.node) if isinstance(r, ast.Return)]
+        rep.count()
+        rep.check(
+            len(rets) == 1 and norm(rets[0].value) == ret, S, cls, f.path,
+            f.lineno, f'returns `{ret}`',
+            f'{cls} returns `{norm(rets[0].value) if rets else "?"}`, '
+            f'expected `{ret}`', key='spec',
+        )
+    sm = 'bqskit/passes/mapping/setmodel.py'
+    f = ctx.fn(f'{sm}:ExtractModelConnectivityPass.run')
+    g = ctx.cfg(f)
+    rep.seen(f.qualname)
+    save = [n for n in g.nodes if isinstance(n.stmt, ast.Assign) and norm(
+        n.stmt.targets[0]) == 'data[self.key]' and norm(
+        n.stmt.value) == 'data.model.coupling_graph']
+    over = [n for n in g.nodes if isinstance(n.stmt, ast.Assign) and norm(
+        n.stmt.targets[0]) == 'data.model.coupling_graph']
+    rep.count(3)
+    rep.check(
+        len(save) == 1 and len(over) == 1 and norm(over[0].stmt.value) == (
+            'CouplingGraph.all_to_all(data.model.num_qudits)')
+        and not g.precedes(lambda n: n is save[0], lambda n: n is over[0]),
+        'PAIR', 'ExtractModelConnectivityPass.run', f.path, f.lineno,
+        'the real coupling graph is saved before it is replaced by '
+        'all-to-all', 'the coupling graph is overwritten before it is '
+        'saved (it can never be restored)', key='save-first',
+    )
+    f = ctx.fn(f'{sm}:RestoreModelConnectivityPass.run')
+    t = norm(f.node)
+    rep.seen(f.qualname)
+    rep.check(
+        'data.model.coupling_graph = '
+        'data[ExtractModelConnectivityPass.key]' in t
+        and 'del data[ExtractModelConnectivityPass.key]' in t, 'PAIR',
+        'RestoreModelConnectivityPass.run', f.path, f.lineno,
+        'the saved coupling graph is written back and the slot cleared',
+        'the saved coupling graph is not written back to the model',
+        key='restore',
+    )
+    f = ctx.fn(f'{sm}:SetModelPass.run')
+    g = ctx.cfg(f)
+    rep.seen(f.qualname)
+    from ..rules import q
+    rep.check(
+        g.must(q.assigns('data.model', 'self.model')) and any(
+            isinstance(n.stmt, ast.Raise) for n in g.nodes), 'PAIR',
+        'SetModelPass.run', f.path, f.lineno,
+        'installs the target model (after refusing a machine that is too '
+        'small)', 'SetModelPass does not install self.model on every '
+        'normal path', key='set-model',
     )
